@@ -8,9 +8,9 @@ MANIFEST = {
     "text": "after a successful forced checkout or hard reset the index equals the target tree, every target path holds the target content (bytes, exec bit, symlink), paths of the previous commit that the target lacks are gone, untracked files not in the target are unchanged, and (sampled) git status reports no tracked change and git ls-files shows the same index. Universes: one path with regular/executable/symlink entries (all 625 H/I/W/T combinations), a directory/file conflict pair, two independent paths.",
     "note": "Bounded universes (<= 2 paths, 2 blob contents); submodules, sparse cones (C32) and linked worktrees (C33) are separate; the git leg is sampled within the process budget.",
 }
-ALL = ["reset-hard", "checkout-force", "checkout", "reset-merge", "reset-keep", "add", "add-all", "remove", "move", "clean", "commit"]
+ALL = ["reset-hard", "checkout-force", "checkout-force-create", "checkout", "reset-merge", "reset-keep", "add", "add-all", "remove", "move", "clean", "commit"]
 
 
 def run(ctx):
-    ops = ['reset-hard', 'checkout-force'] or ALL
+    ops = ['reset-hard', 'checkout-force', 'checkout-force-create'] or ALL
     repo_common.run_prop(ctx, "C25", ["one-path-all-kinds", "dir-file-conflict"], ["one-path-all-kinds", "dir-file-conflict", "two-paths"], ops, 900)
